@@ -64,6 +64,17 @@ def make_ts(rng):
         if len(drop) < ts.num_sites:
             tables.delete_sites(drop)
             ts = tables.tree_sequence()
+    # sometimes a few sites without any mutation (kept unless filter_sites=True)
+    if rng.random() < 0.35:
+        tables = ts.dump_tables()
+        used = set(float(x) for x in tables.sites.position)
+        for _ in range(rng.randint(1, 3)):
+            x = float(rng.randrange(int(L)))
+            if x not in used:
+                used.add(x)
+                tables.sites.add_row(x, "0")
+        tables.sort()
+        ts = tables.tree_sequence()
     return ts
 
 
@@ -225,6 +236,20 @@ def check_output(ctx, ts, kw, out, ivs, rp):
             lost = sorted(set(want) - set(out_pos))
             fail("sites-lost" if lost else "sites-changed", "site positions %r expected, got %r (lost %r)" % (want[:10], out_pos[:10], lost[:5]))
             return
+    else:
+        # filter_sites=True: exactly the sites that carry a mutation survive (outside user intervals)
+        with_mut = set(float(ts.sites_position[m.site]) for m in ts.mutations())
+        want = [x for x in in_pos if not removed(x) and x in with_mut]
+        if out_pos != want:
+            fail("sites-filter", "filter_sites=True: site positions %r expected, got %r" % (want[:10], out_pos[:10]))
+            return
+    # populations / individuals are kept unless their filter flag is set
+    if not kw.get("filter_populations", False) and out.num_populations != ts.num_populations:
+        fail("populations-dropped", "populations %d -> %d" % (ts.num_populations, out.num_populations))
+        return
+    if not kw.get("filter_individuals", False) and out.num_individuals != ts.num_individuals:
+        fail("individuals-dropped", "individuals %d -> %d" % (ts.num_individuals, out.num_individuals))
+        return
     # samples in order, with their times
     if out.num_samples != ts.num_samples or not np.array_equal(out.nodes_time[out.samples()], ts.nodes_time[ts.samples()]):
         fail("samples-changed", "samples %r -> %r" % (list(ts.nodes_time[ts.samples()]), list(out.nodes_time[out.samples()])))
